@@ -104,7 +104,11 @@ Definition cfl_channels_dec_into (prev : list N) (data : list N) : outcome (list
 Definition cfl_masks_dec_into (prev : list (list bool)) (data : list N) : outcome (list (list bool)) :=
   let n := length data in
   if (15 <? n)%nat then Err else
-  let d := firstn (n - n mod 2) data in
+  (* if len(data) > 12 { data = data[:12] }: at most six masks, the bytes behind them are RFU
+     (after fix e2c2b92, finding C06-2) *)
+  let data := if (12 <? n)%nat then firstn 12 data else data in
+  let n := length data in
+  let d := firstn (n - n mod 2) data in              (* make data a multiple of 2 *)
   Ok (masks_loop d 8 [] []).                         (* p.ChannelMasks = nil first (after fix 4dbc1ba) *)
 
 (* CFList.UnmarshalBinary: l.Payload is a new object on both branches *)
